@@ -7,6 +7,7 @@
 import GqlVerif.Gen.ExtApi
 import GqlVerif.Model.Ext
 import GqlVerif.Model.Rules.Basic
+import GqlVerif.Thm.Tie
 namespace Gql.Tie
 
 /-- (trait, [(method, the model definition that stands for it)]) -/
@@ -37,6 +38,8 @@ def extModelled : List (String × List (String × Lean.Name)) :=
    ("FragmentSpreadExtraction", [("get_recursive_fragment_spreads", ``recursiveSpreads), ("get_fragment_spreads", ``directSpreads)])]
 
 /-- the helper API read from ext.rs now is the one the model was written against -/
-theorem ext_api_modelled : Gen.extApi = extModelled.map fun p => (p.1, p.2.map (·.1)) := by decide
+theorem ext_api_modelled :
+    (Gen.extApi.length == extModelled.length &&
+      Gen.extApi.all fun p => extModelled.any fun q => q.1 == p.1 && sameNames p.2 (q.2.map (·.1))) = true := by decide
 
 end Gql.Tie
